@@ -226,8 +226,14 @@ def protocol_scenario(rng, npeers, n, steps, weights=None):
         elif k == "bfsparse":
             # a peer re-sending a bitfield that offers (almost) nothing, in the middle of a download
             ops.append("bf %d %s" % (a, rand_bits(rng, n, rng.choice([0.0, 0.1]))))
-            if rng.random() < 0.7:
+            r2 = rng.random()
+            if r2 < 0.55:
                 ops.append("have %d %d" % (a, rng.randrange(n)))
+            elif r2 < 0.85:
+                # ... and then its connection dies (a corrupt piece ends the task): whatever it was fetching must become
+                # downloadable again although we had just lost interest in this peer
+                ops.append("kill %d" % a)
+                alive.remove(a)
         elif k == "stats":
             ops.append("stats %d %s %s" % (a, rng.choice(["-", "0", "5", "100"]), rng.choice(["-", "0", "7", "100"])))
         elif k == "kill":
